@@ -469,6 +469,18 @@ def run_point(doc, log):
     nd = umat.x[0].shape[0] if hasattr(umat, "x") else (2 if model in ("LinearElasticPlaneStress", "LinearElasticPlaneStrain") else 3)
     H = Hrng.normal(size=(nd, nd, q, c))
     H /= np.abs(H).max()
+    if pick(doc["seed"], "degenerate-states", 4) == 0:
+        # special but legal states: principal stretches that coincide (uniaxial, equi-biaxial, purely
+        # volumetric deformation) at three of four points of the batch, a generic state at the fourth
+        a_ = Hrng.uniform(0.3, 1.0, size=(q, c))
+        b_ = Hrng.uniform(-0.5, 0.3, size=(q, c))
+        for n_, (qi, ci) in enumerate(np.ndindex(q, c)):
+            kind_ = n_ % 4
+            if kind_ == 3:
+                continue
+            dg = [a_[qi, ci], b_[qi, ci], b_[qi, ci]] if kind_ == 0 else ([a_[qi, ci]] * 3 if kind_ == 1 else [a_[qi, ci], a_[qi, ci], b_[qi, ci]])
+            H[:, :, qi, ci] = np.diag(dg[:nd])
+        log.count("states-with-coinciding-stretches")
     nsv = umat.x[-1].shape[0] if hasattr(umat, "x") else 0
     sv = np.zeros((nsv, q, c))
     mixed = model in MIXED
